@@ -152,14 +152,14 @@ theorem hdrline_never_panics (b : Buf) (o : Nat) (h : Hdr) (hb : Option PHdrVals
     (H : HlSafe b o (h, hb)) (hI : hlOK b o h hb) {o' : Nat} {e : Err} {h' : Hdr} {hb' : Option PHdrVals}
     (hr : parseHdrLine b o h hb = (o', e, h', hb')) :
     HlOut b (h', hb') ∧ ((e = .ok ∨ e = .moreBytes) → HlSafe b o' (h', hb')) ∧ (e = .ok → h'.state = .fin) ∧
-      o' ≤ b.size := parseHdrLine_safe b o h hb hfit H hI hr
+      o' ≤ b.size ∧ (e = .empty → HlSafe b o' (h', hb')) := parseHdrLine_safe b o h hb hfit H hI hr
 
 theorem headers_never_panics (b : Buf) (offs : Nat) (hl : HdrLst) (hb : Option PHdrVals) (hfit : b.size ≤ 65535)
     (hok1 : hlsOK b hl) (hok2 : hbOK b offs hb) (hpe : hlsPend hl hb) (ho : offs ≤ b.size)
     (H : HlsSafe b offs hl hb) :
     HlsOut b (parseHeaders b offs hl hb).2.2.1 ∧
     (∀ hv, (parseHeaders b offs hl hb).2.2.2 = some hv → HvFine b hv) ∧
-    ((parseHeaders b offs hl hb).2.1 = .moreBytes →
+    ((parseHeaders b offs hl hb).2.1 = .moreBytes ∨ (parseHeaders b offs hl hb).2.1 = .ok →
       HlsSafe b (parseHeaders b offs hl hb).1 (parseHeaders b offs hl hb).2.2.1 (parseHeaders b offs hl hb).2.2.2) ∧
     ((parseHeaders b offs hl hb).2.1 = .ok ∨ (parseHeaders b offs hl hb).2.1 = .moreBytes →
       offs ≤ (parseHeaders b offs hl hb).1 ∧ (parseHeaders b offs hl hb).1 ≤ b.size) ∧
